@@ -277,12 +277,313 @@ Section ARut.
     if zdefb (snd p) then (fst p, false, false) else arut_loop fuel (snd p) (fst p).
 End ARut.
 
+(* ---------------------------------------------------------------- EditCollection / FixedKeyDictNodeEdit, call by call
+   (edits.py:401-522; explode_edits = False, collection = list).  The state record `coll` of MachineModel.v is reused:
+   k_pend = what _edit_iter still holds (creation of an edit is pure, so the edits exist up front; an edit's
+   initial_bounds is read when the iterator produces it), k_subs = _sub_edits with initial_bounds.upper_bound,
+   k_cost = _cost, k_valid = valid.  The working state carries a flag: an `assert` failed, the edit invalidated itself
+   (the model does not follow Range() = (-inf, inf) any further), or a loop of the model ran out of fuel. *)
+Inductive afor (S : Type) := AExit (s : S) | ADone (s : S) (tightened : bool).
+Arguments AExit {S}. Arguments ADone {S}.
+
+Section ACollS.
+  Context {X : Type}.
+  Variable C : cops X.
+  (* working state: the collection, initial_bounds.upper_bound of the edits the iterator has not produced yet (an edit's
+     initial bounds are a function of the fresh edit: computed up front), the failure flag *)
+  Definition cst := (coll X * list Z * bool)%type.
+  Definition ccl (s : cst) : coll X := fst (fst s).
+  Definition cius (s : cst) : list Z := snd (fst s).
+  Definition cerr (s : cst) : bool := snd s.
+
+  Definition c_set_subs (s : cst) (l : list (X * Z)) : cst := (set_subs (ccl s) l, cius s, cerr s).
+  Definition c_set_memo (s : cst) (c : option zr) : cst := (set_memo (ccl s) c, cius s, cerr s).
+  Definition c_fail (s : cst) : cst := (ccl s, cius s, true).
+  Definition c_invalid (s : cst) : cst := (set_invalid (ccl s), cius s, true).
+
+  (* e.bounds() of one sub-edit (iterator exhausted) *)
+  Definition rd1 (p : X * Z) : (X * Z) * zr := let q := k_bnd C (fst p) in ((fst q, snd p), snd q).
+  (* e.bounds().lower_bound, then e.initial_bounds.upper_bound - e.bounds().upper_bound (iterator not exhausted) *)
+  Definition rd2 (p : X * Z) : (X * Z) * zr :=
+    let q1 := k_bnd C (fst p) in
+    let q2 := k_bnd C (fst q1) in
+    ((fst q2, snd p), (fst (snd q1), snd p - snd (snd q2))).
+
+  (* bounds() *)
+  Definition acoll_bounds (s : cst) : cst * zr :=
+    let c := ccl s in
+    if negb (k_valid c) then (c_fail s, (0, 0))
+    else match k_cost c with
+         | Some r => (s, r)
+         | None =>
+             match k_pend c with
+             | None =>
+                 let t := thread rd1 (k_subs c) in
+                 let tot := zr_sum (snd t) in
+                 let s1 := c_set_subs s (fst t) in
+                 if k_U c <? fst tot then (c_invalid s1, (0, 0))
+                 else let r := (fst tot, Z.min (k_U c) (snd tot)) in
+                      if zdefb r then (c_set_memo s1 (Some r), r) else (s1, r)
+             | Some _ =>
+                 let t := thread rd2 (k_subs c) in
+                 let lo := zsum (map fst (snd t)) in
+                 let hi := k_U c - zsum (map snd (snd t)) in
+                 let s1 := c_set_subs s (fst t) in
+                 if k_U c <? lo then (c_invalid s1, (0, 0))
+                 else (s1, (lo, Z.min (k_U c) hi))
+             end
+         end.
+
+  (* _is_tightened(starting_bounds): not valid or bounds().lower_bound > start.lower_bound or bounds().upper_bound < ... *)
+  Definition acoll_is_tightened (start : zr) (s : cst) : cst * bool :=
+    if negb (k_valid (ccl s)) then (s, true)
+    else let q1 := acoll_bounds s in
+         if fst start <? fst (snd q1) then (fst q1, true)
+         else let q2 := acoll_bounds (fst q1) in (fst q2, snd (snd q2) <? snd start).
+
+  (* _expand_edits(): the next edit of the iterator (constructed now: its __init__ reads its bounds) is appended and
+     _cost is reset; an exhausted iterator is dropped *)
+  Definition acoll_expand (s : cst) : cst * bool :=
+    let c := ccl s in
+    match k_pend c with
+    | None => (s, false)
+    | Some [] => ((mk_coll (k_U c) None (k_subs c) (k_cost c) (k_valid c), cius s, cerr s), false)
+    | Some (x :: rest) =>
+        ((mk_coll (k_U c) (Some rest) (k_subs c ++ [(fst (k_bnd C x), hd 0 (cius s))]) None (k_valid c), tl (cius s), cerr s), true)
+    end.
+
+  (* list(edits()): everything the iterator still holds is appended *)
+  Definition acoll_edits (s : cst) : cst :=
+    let c := ccl s in
+    match k_pend c with
+    | None => s
+    | Some l =>
+        (mk_coll (k_U c) None
+                 (k_subs c ++ map (fun xi => (fst (k_bnd C (fst xi)), snd xi)) (combine l (cius s)))
+                 (match l with [] => k_cost c | _ => None end) (k_valid c), [], cerr s)
+    end.
+
+  (* `for child in self._sub_edits:` from position i on, at most n children *)
+  Fixpoint acoll_for (n i : nat) (start : zr) (s : cst) (tg : bool) : afor cst :=
+    match n with
+    | O => ADone s tg
+    | S n' =>
+        match nth_error (k_subs (ccl s)) i with
+        | None => ADone s tg
+        | Some xi =>
+            let p := k_tig C (fst xi) in
+            if snd p then
+              let q := acoll_bounds (c_set_memo (c_set_subs s (set_nth i (fst p, snd xi) (k_subs (ccl s)))) None) in
+              if cerr (fst q) then AExit (fst q)
+              else if tighter (snd q) start then AExit (fst q)
+              else acoll_for n' (S i) start (fst q) true
+            else
+              (* assert not child.valid or child.bounds().definitive() *)
+              let b := k_bnd C (fst p) in
+              let s1 := c_set_subs s (set_nth i (fst b, snd xi) (k_subs (ccl s))) in
+              if zdefb (snd b) then acoll_for n' (S i) start s1 tg else AExit (c_fail s1)
+        end
+    end.
+
+  (* the `while True` loop of tighten_bounds() *)
+  Fixpoint acoll_loop (fuel : nat) (start : zr) (s : cst) : cst * bool :=
+    match fuel with
+    | O => (c_fail s, false)
+    | S f =>
+        let e := acoll_expand s in
+        let q := if snd e then acoll_is_tightened start (fst e) else (fst e, false) in
+        if snd q then (fst q, true)
+        else
+          match acoll_for (length (k_subs (ccl (fst q)))) 0 start (fst q) false with
+          | AExit s3 => (s3, true)
+          | ADone s3 tg =>
+              match k_pend (ccl s3) with
+              | None => if tg then acoll_loop f start s3 else acoll_is_tightened start s3
+              | Some _ => acoll_loop f start s3
+              end
+          end
+    end.
+
+  Definition acoll_mu (c : coll X) : nat :=
+    match k_pend c with Some l => S (length l + nat_sum (map (k_mu C) l)) | None => O end +
+    nat_sum (map (fun p => k_mu C (fst p)) (k_subs c)).
+
+  (* tighten_bounds() *)
+  Definition acoll_tig (s : cst) : cst * bool :=
+    if negb (k_valid (ccl s)) then (s, false)
+    else let q := acoll_bounds s in
+         if cerr (fst q) then (fst q, false)
+         else acoll_loop (S (S (acoll_mu (ccl (fst q))))) (snd q) (fst q).
+
+  (* is_complete(): not self.valid or self.bounds().definitive() *)
+  Definition acoll_cmp (s : cst) : cst * bool :=
+    if negb (k_valid (ccl s)) then (s, true)
+    else let q := acoll_bounds s in (fst q, zdefb (snd q)).
+End ACollS.
+
+(* ---------------------------------------------------------------- WeightedBipartiteMatcher + MultiSetEdit, call by call
+   (matching.py:566-710, multiset.py).  The state record `mset` of MachineModel.v is reused, with the same oracles:
+   m_counts (how many tighten_bounds() calls bounds.make_distinct makes on each edge) and m_asg (the assignment the
+   solver returns; used if it is a full matching, otherwise the diagonal).  New here: every bounds() read of an edge or
+   of a pre-matched key/value edit is a step of that edit; the `matching` property (forced by edits(), by
+   tighten_bounds() and by MultiSetEdit.tighten_bounds() itself) calls _make_edges_distinct() first when that has not
+   happened yet, then reads every edge's bounds for the solver. *)
+Section AMSetS.
+  Context {X : Type}.
+  Variable C : cops X.
+
+  (* for (_, (_, edge)) in self._match.items(): lb += edge.bounds().lower_bound; ub += edge.bounds().upper_bound *)
+  Fixpoint aread_matched (e : list (list X)) (mt : list (nat * nat)) : list (list X) * zr :=
+    match mt with
+    | [] => (e, (0, 0))
+    | ij :: rest =>
+        match mget e (fst ij) (snd ij) with
+        | None => aread_matched e rest
+        | Some x =>
+            let p1 := k_bnd C x in
+            let p2 := k_bnd C (fst p1) in
+            let r := aread_matched (set2 e (fst ij) (snd ij) (fst p2)) rest in
+            (fst r, (fst (snd p1) + fst (snd r), snd (snd p2) + snd (snd r)))
+        end
+    end.
+
+  (* WeightedBipartiteMatcher.bounds() *)
+  Definition amt_bounds (s : mset X) : mset X * zr :=
+    match m_memo s with
+    | Some r => (s, r)
+    | None =>
+        if m_empty s then (with_memo s (0, 0), (0, 0))
+        else match m_match s with
+             | None =>
+                 let t1 := thread (thread (k_bnd C)) (m_edges s) in           (* the pass of the lower bounds *)
+                 let t2 := thread (thread (k_bnd C)) (fst t1) in              (* the pass of the upper bounds *)
+                 let k := Nat.min (mn s) (mm s) in
+                 let r := (sum_smallest k (map (fun row => zmin_list (map fst row)) (snd t1)),
+                           sum_largest k (map (fun row => zmax_list (map snd row)) (snd t2))) in
+                 let s1 := with_edges s (fst t2) in
+                 if zdefb r then (with_memo s1 r, r) else (s1, r)
+             | Some mt =>
+                 let p := aread_matched (m_edges s) mt in
+                 let s1 := with_edges s (fst p) in
+                 if zdefb (snd p) then (with_memo s1 (snd p), snd p) else (s1, snd p)
+             end
+    end.
+
+  (* make_distinct: every edge's bounds are read, then it is tightened some number of times (oracle), its bounds being
+     read after every call *)
+  Fixpoint aiter_tb (n : nat) (x : X) : X :=
+    match n with O => x | S n' => aiter_tb n' (fst (k_bnd C (fst (k_tig C x)))) end.
+  Definition amd_edges (cnt : list (list nat)) (e : list (list X)) : list (list X) :=
+    map (fun ir => map (fun jx => aiter_tb (nth (fst jx) (nth (fst ir) cnt []) O) (fst (k_bnd C (snd jx))))
+                       (combine (seq 0 (length (snd ir))) (snd ir)))
+        (combine (seq 0 (length e)) e).
+
+  (* the `matching` property *)
+  Definition amt_force (s : mset X) : mset X :=
+    match m_match s with
+    | Some _ => s
+    | None =>
+        if m_empty s then with_match s []
+        else let s1 := if m_distinct s then s else with_distinct (with_edges s (amd_edges (m_counts s) (m_edges s))) in
+             let t := thread (thread (k_bnd C)) (m_edges s1) in                (* get_edges: edge.bounds().upper_bound *)
+             let s2 := with_edges s1 (fst t) in
+             with_match s2 (chosen s2)
+    end.
+
+  (* for (_, (_, edge)) in self.matching.items(): if edge.tighten_bounds(): return True *)
+  Fixpoint amt_matched (e : list (list X)) (mt : list (nat * nat)) : list (list X) * bool :=
+    match mt with
+    | [] => (e, false)
+    | ij :: rest =>
+        match mget e (fst ij) (snd ij) with
+        | None => amt_matched e rest
+        | Some x => let p := k_tig C x in
+                    let e' := set2 e (fst ij) (snd ij) (fst p) in
+                    if snd p then (e', true) else amt_matched e' rest
+        end
+    end.
+
+  (* the undecorated WeightedBipartiteMatcher.tighten_bounds() *)
+  Definition amt_func (s : mset X) : mset X :=
+    match m_match s with
+    | None => if m_distinct s then amt_force s
+              else with_distinct (with_edges s (amd_edges (m_counts s) (m_edges s)))
+    | Some mt => with_edges s (fst (amt_matched (m_edges s) mt))
+    end.
+
+  Definition amset_mu (s : mset X) : nat :=
+    nat_sum (map (k_mu C) (m_kvp s)) + nat_sum (map (fun row => nat_sum (map (k_mu C) row)) (m_edges s)) +
+    (if m_distinct s then O else 1%nat) + (match m_match s with Some _ => O | None => 1%nat end).
+
+  (* MultiSetEdit.bounds() *)
+  Definition ams_bounds (s : mset X) : mset X * zr :=
+    let q := amt_bounds s in
+    let t := thread (k_bnd C) (m_kvp (fst q)) in
+    let s2 := with_kvp (fst q) (fst t) in
+    let base := zr_add (snd q) (zr_sum (snd t)) in
+    (s2,
+     match m_match s2 with
+     | Some mt => zr_add base (zconst (unmatched_cost s2 mt))
+     | None =>
+         if Nat.ltb (mm s2) (mn s2)
+         then zr_add base (sum_smallest (mn s2 - mm s2) (m_rem s2), sum_largest (mn s2 - mm s2) (m_rem s2))
+         else if Nat.ltb (mn s2) (mm s2)
+         then zr_add base (sum_smallest (mm s2 - mn s2) (m_ins s2), sum_largest (mm s2 - mn s2) (m_ins s2))
+         else base
+     end).
+
+  (* MultiSetEdit.tighten_bounds(); the flag: the model's repeat_until_tightened ran out of fuel *)
+  Definition ams_tig (s : mset X) : (mset X * bool) * bool :=
+    let p := first_true (k_tig C) (m_kvp s) in
+    let s1 := with_kvp s (fst p) in
+    if snd p then ((s1, false), true)
+    else let r := arut amt_bounds amt_func (S (S (S (amset_mu s1)))) s1 in
+         let s2 := fst (fst r) in
+         if snd r then ((s2, true), false)
+         else if snd (fst r) then ((s2, false), true)
+         else match m_match s2 with
+              | Some _ => ((s2, false), false)
+              | None => let q0 := ams_bounds s2 in
+                        let q1 := ams_bounds (amt_force (fst q0)) in
+                        ((fst q1, false), tighter (snd q1) (snd q0))
+              end.
+
+  (* __init__ (initial_bounds = self.bounds()) *)
+  Definition amset_init (kvp : list X) (edges : list (list X)) (rem ins : list Z) (cnt : list (list nat)) (asg : list (nat * nat))
+    : mset X := fst (ams_bounds (mk_mset kvp edges rem ins false None None cnt asg)).
+End AMSetS.
+
+(* the rows (from_nodes) / columns (to_nodes) a matching leaves unmatched, ascending *)
+Definition unm_rows {X} (s : mset X) (mt : list (nat * nat)) : list nat :=
+  filter (fun i => negb (existsb (Nat.eqb i) (map fst mt))) (seq 0 (mn s)).
+Definition unm_cols {X} (s : mset X) (mt : list (nat * nat)) : list nat :=
+  filter (fun j => negb (existsb (Nat.eqb j) (map snd mt))) (seq 0 (mm s)).
+
+(* serialisation of the matched edges, in the order of the matching *)
+Fixpoint ser_matched {X E} (f : X -> X * option E) (e : list (list X)) (mt : list (nat * nat)) : list (list X) * list (option E) :=
+  match mt with
+  | [] => (e, [])
+  | ij :: rest =>
+      match mget e (fst ij) (snd ij) with
+      | None => let r := ser_matched f e rest in (fst r, None :: snd r)
+      | Some x => let p := f x in
+                  let r := ser_matched f (set2 e (fst ij) (snd ij) (fst p)) rest in
+                  (fst r, snd p :: snd r)
+      end
+  end.
+
 (* ---------------------------------------------------------------- the universal machine *)
+(* what the serialiser needs to name the sub-edits of a mapping edit by the positions of the children *)
+Inductive ksub := KP (i j : nat) | KR (i : nat) | KI (j : nat).
+Record midx := mk_midx { x_exact : list (nat * nat); x_pre : list (nat * nat); x_R : list nat; x_I : list nat }.
+
 Inductive ast :=
   | AConst (c : Z) (t : tag)                                   (* ConstantCostEdit: Match / Replace / Remove / Insert *)
   | ASum (l : list ast)                                        (* KeyValuePairEdit: [key_edit; value_edit] *)
   | AFixed (l : list ast) (rems inss : list Z) (err : bool)    (* FixedLengthSequenceEdit: _sub_edits, costs of the surplus *)
-  | AED (sk : option (str * str)) (p q : nat) (e : ed ast).    (* EditDistance (sk = None) / StringEdit over one (Some (s, t)) *)
+  | AED (sk : option (str * str)) (p q : nat) (e : ed ast)     (* EditDistance (sk = None) / StringEdit over one (Some (s, t)) *)
+  | AColl (ks : list ksub) (ius : list Z) (c : coll ast) (err : bool)   (* FixedKeyDictNodeEdit (an EditCollection over a list) *)
+  | AMSet (ix : midx) (m : mset ast) (err : bool).             (* MultiSetEdit with its WeightedBipartiteMatcher *)
 
 Definition tag_of (s : ast) : tag :=
   match s with
@@ -291,6 +592,8 @@ Definition tag_of (s : ast) : tag :=
   | AFixed _ _ _ _ => TFixed
   | AED None _ _ _ => TEditDist
   | AED (Some _) _ _ _ => TString
+  | AColl _ _ _ _ => TFixedDict
+  | AMSet _ _ _ => TMultiSet
   end.
 
 Fixpoint muA (s : ast) : nat :=
@@ -303,6 +606,12 @@ Fixpoint muA (s : ast) : nat :=
       | Some _ => O
       | None => (S (S (length (e_ic e) + length (e_rc e))) - e_d e) + nat_sum (map (fun row => nat_sum (map muA row)) (e_kids e))
       end
+  | AColl _ _ c _ =>
+      match k_pend c with Some l => S (length l + nat_sum (map muA l)) | None => O end +
+      nat_sum (map (fun p => muA (fst p)) (k_subs c))
+  | AMSet _ m _ =>
+      nat_sum (map muA (m_kvp m)) + nat_sum (map (fun row => nat_sum (map muA row)) (m_edges m)) +
+      (if m_distinct m then O else 1%nat) + (match m_match m with Some _ => O | None => 1%nat end)
   end.
 
 Fixpoint errA (s : ast) : bool :=
@@ -311,6 +620,9 @@ Fixpoint errA (s : ast) : bool :=
   | ASum l => existsb errA l
   | AFixed l _ _ err => err || existsb errA l
   | AED _ _ _ e => e_err e || existsb (fun row => existsb errA row) (e_kids e)
+  | AColl _ _ c err =>
+      err || match k_pend c with Some l => existsb errA l | None => false end || existsb (fun p => errA (fst p)) (k_subs c)
+  | AMSet _ m err => err || existsb errA (m_kvp m) || existsb (fun row => existsb errA row) (m_edges m)
   end.
 
 Definition sum_bnd {X} (C : cops X) (l : list X) : list X * zr :=
@@ -335,6 +647,8 @@ Section Universal.
               let r := snd sb in
               (AFixed (fst sb) rems inss err, (fst r + zsum rems + zsum inss, snd r + zsum rems + zsum inss))
           | AED sk p q e => let fb := fed_bnd C e in (AED sk p q (fst fb), snd fb)
+          | AColl ks ius c err => let q := acoll_bounds C (c, ius, err) in (AColl ks (cius (fst q)) (ccl (fst q)) (cerr (fst q)), snd q)
+          | AMSet ix m err => let q := ams_bounds C m in (AMSet ix (fst q) err, snd q)
           end in
         let fixed_bnd := fun rems inss (l : list ast) =>
           let sb := sum_bnd C l in
@@ -348,6 +662,8 @@ Section Universal.
               let r := arut (fixed_bnd rems inss) (fun l => fst (first_true (k_tig C) l)) (S (nat_sum (map (k_mu C) l))) l in
               (AFixed (fst (fst r)) rems inss (err || snd r), snd (fst r))
           | AED sk p q e => let ft := fed_tig C quiet e in (AED sk p q (fst ft), snd ft)
+          | AColl ks ius c err => let q := acoll_tig C (c, ius, err) in (AColl ks (cius (fst q)) (ccl (fst q)) (cerr (fst q)), snd q)
+          | AMSet ix m err => let q := ams_tig C m in (AMSet ix (fst (fst q)) (err || snd (fst q)), snd q)
           end in
         let cmp := fun s =>
           match s with
@@ -356,6 +672,8 @@ Section Universal.
           | AFixed l rems inss err => let ta := thread_all (k_cmp C) l in (AFixed (fst ta) rems inss err, snd ta)
           | AED None _ _ e => (s, fcomplete e)
           | AED (Some _) _ _ _ => let bs := bnd s in (fst bs, zdefb (snd bs))    (* StringEdit: AbstractEdit.is_complete *)
+          | AColl ks ius c err => let q := acoll_cmp C (c, ius, err) in (AColl ks (cius (fst q)) (ccl (fst q)) (cerr (fst q)), snd q)
+          | AMSet _ m _ => (s, match m_match m with Some _ => true | None => false end)   (* the matching is known *)
           end in
         mk_cops bnd tig cmp errA muA
     end.
@@ -367,6 +685,10 @@ Section Universal.
     | ASum l => S (nat_max_list (map aheight l))
     | AFixed l _ _ _ => S (nat_max_list (map aheight l))
     | AED _ _ _ e => S (nat_max_list (map (fun row => nat_max_list (map aheight row)) (e_kids e)))
+    | AColl _ _ c _ => S (Nat.max (match k_pend c with Some l => nat_max_list (map aheight l) | None => O end)
+                                  (nat_max_list (map (fun p => aheight (fst p)) (k_subs c))))
+    | AMSet _ m _ => S (Nat.max (nat_max_list (map aheight (m_kvp m)))
+                                (nat_max_list (map (fun row => nat_max_list (map aheight row)) (m_edges m))))
     end.
 
   (* ---------------------------------------------------------------- the public operations on one object *)
@@ -407,6 +729,16 @@ Section Universal.
                                | OIns _ => TInsert
                                end) (fed_alignment e') ++
                  repeat TMatch q))
+      | AColl ks ius c err =>
+          let c' := acoll_edits (opsA (d - 1)) (c, ius, err) in
+          (AColl ks (cius c') (ccl c') (cerr c'), Some (map (fun p => tag_of (fst p)) (k_subs (ccl c'))))
+      | AMSet ix m err =>
+          let m' := amt_force (opsA (d - 1)) m in
+          let mt := match m_match m' with Some mt => mt | None => [] end in
+          (AMSet ix m' err,
+           Some (map (fun _ => TMatch) (x_exact ix) ++ map tag_of (m_kvp m') ++
+                 map (fun ij => match mget (m_edges m') (fst ij) (snd ij) with Some x => tag_of x | None => TOther end) mt ++
+                 map (fun _ => TRemove) (unm_rows m' mt) ++ map (fun _ => TInsert) (unm_cols m' mt)))
       end.
 
     Definition apply_op (o : bop) (s : ast) : ast * outcome :=
@@ -415,7 +747,7 @@ Section Universal.
         | OBounds => let p := k_bnd C s in (fst p, RRange (rng_of (snd p)))
         | OTighten => let p := k_tig C s in (fst p, RBool (snd p))
         | OIsComplete => let p := k_cmp C s in (fst p, RBool (snd p))
-        | OValid => (s, RBool true)
+        | OValid => (s, RBool (match s with AColl _ _ c _ => k_valid c | _ => true end))
         | OEdits => let p := listing s in (fst p, match snd p with Some l => REdits l | None => RNA end)
         | OHasNonZero => let p := hnz (S (muA s)) s in (fst p, RBool (snd p))
         end in
@@ -445,6 +777,32 @@ Section Universal.
                    | None => if Nat.ltb (i - p - length (fed_alignment e)) q then Some (AConst 0 TMatch) else None
                    end
           end
+      | AColl _ _ c _ => match k_pend c with
+                         | None => match nth_error (k_subs c) i with Some p => Some (fst p) | None => None end
+                         | Some _ => None
+                         end
+      | AMSet ix m _ =>
+          match m_match m with
+          | None => None
+          | Some mt =>
+              let n0 := length (x_exact ix) in
+              let n1 := length (m_kvp m) in
+              let n2 := length mt in
+              if Nat.ltb i n0 then Some (AConst 0 TMatch)
+              else if Nat.ltb i (n0 + n1) then nth_error (m_kvp m) (i - n0)
+              else if Nat.ltb i (n0 + n1 + n2)
+                   then match nth_error mt (i - n0 - n1) with
+                        | Some ij => mget (m_edges m) (fst ij) (snd ij)
+                        | None => None
+                        end
+              else match nth_error (unm_rows m mt) (i - n0 - n1 - n2) with
+                   | Some r => Some (AConst (nth r (m_rem m) 0) TRemove)
+                   | None => match nth_error (unm_cols m mt) (i - n0 - n1 - n2 - length (unm_rows m mt)) with
+                             | Some c => Some (AConst (nth c (m_ins m) 0) TInsert)
+                             | None => None
+                             end
+                   end
+          end
       end.
 
     Definition sub_put (s : ast) (i : nat) (x : ast) : ast :=
@@ -460,6 +818,30 @@ Section Universal.
                    | Some (OMatch c r) => AED None p q (set_kid e r c x)
                    | _ => s
                    end
+          end
+      | AColl ks ius c err =>
+          match k_pend c, nth_error (k_subs c) i with
+          | None, Some p => AColl ks ius (set_subs c (set_nth i (x, snd p) (k_subs c))) err
+          | _, _ => s
+          end
+      | AMSet ix m err =>
+          match m_match m with
+          | None => s
+          | Some mt =>
+              let n0 := length (x_exact ix) in
+              let n1 := length (m_kvp m) in
+              let n2 := length mt in
+              if Nat.ltb i n0 then s
+              else if Nat.ltb i (n0 + n1) then AMSet ix (with_kvp m (set_nth (i - n0) x (m_kvp m))) err
+              else if Nat.ltb i (n0 + n1 + n2)
+                   then match nth_error mt (i - n0 - n1) with
+                        | Some ij => match mget (m_edges m) (fst ij) (snd ij) with
+                                     | Some _ => AMSet ix (with_edges m (set2 (m_edges m) (fst ij) (snd ij) x)) err
+                                     | None => s
+                                     end
+                        | None => s
+                        end
+              else s
           end
       | _ => s
       end.
@@ -608,6 +990,46 @@ Section Universal.
              | Some c => Some (EStr c (map SKeep (firstn p u) ++ sops ++ map SKeep (skipn (length u - q) u)))
              | None => None
              end)
+        | AColl ks ius c err =>
+            let c1 := acoll_edits (opsA d') (c, ius, err) in
+            let th := thread (serA d') (map fst (k_subs (ccl c1))) in
+            let subs' := combine (fst th) (map snd (k_subs (ccl c1))) in
+            let s1 := AColl ks (cius c1) (set_subs (ccl c1) subs') (cerr c1) in
+            let ow := own s1 in
+            (fst ow,
+             match all_some_e (snd th), snd ow with
+             | Some es, Some cst =>
+                 if Nat.eqb (length ks) (length es)
+                 then Some (EComp KFixedDict cst (map (fun ke => match fst ke with
+                                                                 | KP i j => SPair i j (snd ke)
+                                                                 | KR i => SRem i (cost (snd ke))
+                                                                 | KI j => SIns j (cost (snd ke))
+                                                                 end) (combine ks es)))
+                 else None
+             | _, _ => None
+             end)
+        | AMSet ix m err =>
+            let m1 := amt_force (opsA d') m in
+            let mt := match m_match m1 with Some mt => mt | None => [] end in
+            let thk := thread (serA d') (m_kvp m1) in
+            let thm := ser_matched (serA d') (m_edges m1) mt in
+            let m2 := with_edges (with_kvp m1 (fst thk)) (fst thm) in
+            let s1 := AMSet ix m2 err in
+            let ow := own s1 in
+            (fst ow,
+             match all_some_e (snd thk), all_some_e (snd thm), snd ow with
+             | Some ek, Some em, Some cst =>
+                 if Nat.eqb (length ek) (length (x_pre ix))
+                 then Some (EComp KMultiSet cst
+                              (map (fun ij => SPair (fst ij) (snd ij) (EMatch 0)) (x_exact ix) ++
+                               map (fun pe => SPair (fst (fst pe)) (snd (fst pe)) (snd pe)) (combine (x_pre ix) ek) ++
+                               map (fun pe => SPair (nth (fst (fst pe)) (x_R ix) O) (nth (snd (fst pe)) (x_I ix) O) (snd pe))
+                                   (combine mt em) ++
+                               map (fun r => SRem (nth r (x_R ix) O) (nth r (m_rem m2) 0)) (unm_rows m2 mt) ++
+                               map (fun c => SIns (nth c (x_I ix) O) (nth c (m_ins m2) 0)) (unm_cols m2 mt)))
+                 else None
+             | _, _, _ => None
+             end)
         end
     end.
 
@@ -641,8 +1063,24 @@ Definition const_tag_of (a b : tree) : option (Z * tag) :=
                    | Kvp _ k' _ => if ake || node_eqb k k' then None else Some (replace_cost a b, TReplace)
                    | _ => None
                    end
-  | _ => None
+  | MSet _ cs => match b with
+                 | MSet _ ds => if (match cs, ds with [], [] => true | _, _ => false end) || node_eqb a b then Some (0, TMatch) else None
+                 | FDict _ => None
+                 | _ => Some (replace_cost a b, TReplace)
+                 end
+  | FDict cs => match b with
+                | FDict ds =>
+                    if (match cs, ds with [], [] => true | _, _ => false end) ||
+                       (forallb (fun c => existsb (fun d => node_eqb c d) ds) cs &&
+                        forallb (fun d => existsb (fun c => node_eqb c d) cs) ds)
+                    then Some (0, TMatch) else None
+                | MSet _ _ => None
+                | _ => Some (replace_cost a b, TReplace)
+                end
   end.
+
+(* initial_bounds.upper_bound of a fresh edit (AbstractEdit.__init__ reads bounds() once) *)
+Definition ubA (s : ast) : Z := snd (snd (k_bnd (opsA true (aheight s)) s)).
 
 Definition str_astate (s t : str) : ast :=
   let '(p, q) := trim Z.eqb s t in
@@ -652,7 +1090,7 @@ Definition str_astate (s t : str) : ast :=
       (ed_init (map (fun _ => 1) s) (map (fun _ => 1) t) p q
                (map (fun d => map (fun c => AConst (char_cost c d) TMatch) s') t')).
 
-Fixpoint initA (a b : tree) {struct a} : option ast :=
+Fixpoint initA (orc : oracle) (a b : tree) {struct a} : option ast :=
   match const_tag_of a b with
   | Some (c, t) => Some (AConst c t)
   | None =>
@@ -667,7 +1105,7 @@ Fixpoint initA (a b : tree) {struct a} : option ast :=
           end
       | Lst ale alsl cs =>
           let ds := match b with Lst _ _ ds => ds | _ => [] end in
-          let M := map (fun c => map (fun d => initA c d) ds) cs in
+          let M := map (fun c => map (fun d => initA orc c d) ds) cs in
           match list_dispatch a b with
           | LFixed =>
               let n := length cs in
@@ -701,15 +1139,75 @@ Fixpoint initA (a b : tree) {struct a} : option ast :=
       | Kvp ake k v =>
           match b with
           | Kvp _ k' v' =>
-              let ke := if node_eqb k k' then Some (AConst 0 TMatch) else initA k k' in
-              let ve := if node_eqb v v' then Some (AConst 0 TMatch) else initA v v' in
+              let ke := if node_eqb k k' then Some (AConst 0 TMatch) else initA orc k k' in
+              let ve := if node_eqb v v' then Some (AConst 0 TMatch) else initA orc v v' in
               match ke, ve with
               | Some x, Some y => Some (ASum [x; y])
               | _, _ => None
               end
           | _ => None
           end
-      | _ => None
+      | FDict cs =>
+          (* FixedKeyDictNode._child_edits: the pairs sharing a key in the order of self, then the removals, then the
+             insertions in the order of the other mapping; cost_upper_bound = total sizes + 1.  Domain (as for C04): members
+             are key/value pairs and the children's initial upper bounds fit the budget (then the edit never invalidates
+             itself; a computed guard) *)
+          match b with
+          | FDict ds =>
+              let M := map (fun c => map (fun d => initA orc c d) ds) cs in
+              let partner := fun c => find_index (fun d => node_eqb (kvp_key c) (kvp_key d)) ds 0 in
+              let shared := flat_map (fun i => match partner (nth i cs dummy) with Some j => [(i, j)] | None => [] end)
+                                     (seq 0 (length cs)) in
+              let unshared := filter (fun i => match partner (nth i cs dummy) with Some _ => false | None => true end)
+                                     (seq 0 (length cs)) in
+              let inserted := filter (fun j => negb (existsb (fun c => node_eqb (kvp_key c) (kvp_key (nth j ds dummy))) cs))
+                                     (seq 0 (length ds)) in
+              let get := fun (ij : nat * nat) =>
+                  if node_eqb (nth (fst ij) cs dummy) (nth (snd ij) ds dummy) then Some (AConst 0 TMatch)
+                  else match mget M (fst ij) (snd ij) with Some (Some s) => Some s | _ => None end in
+              if fixed_dict_removals_in_hash_order || negb (forallb is_kvp cs && forallb is_kvp ds) then None
+              else
+                match all_some_l (map get shared) with
+                | Some sh =>
+                    let kids := sh ++ map (fun i => AConst (remove_cost (nth i cs dummy) 1) TRemove) unshared
+                                   ++ map (fun j => AConst (insert_cost (nth j ds dummy) 1) TInsert) inserted in
+                    let ks := map (fun ij => KP (fst ij) (snd ij)) shared ++ map KR unshared ++ map KI inserted in
+                    let U := size a + 1 + size b in
+                    let ius := map ubA kids in
+                    if zsum ius <=? U then Some (AColl ks ius (mk_coll U (Some kids) [] None true) false) else None
+                | None => None
+                end
+          | _ => None
+          end
+      | MSet amk cs =>
+          (* MultiSetEdit.__init__: key pre-matching (auto_match_keys), exact matches, then the matcher between what is
+             left (to_remove x to_insert).  Domain: the elements of each side are pairwise different (D36) *)
+          match b with
+          | MSet _ ds =>
+              let M := map (fun c => map (fun d => initA orc c d) ds) cs in
+              let pre := if amk then prematch cs 0 ds [] else [] in
+              let fl := filter (fun i => negb (nat_in i (map fst pre))) (seq 0 (length cs)) in
+              let tl := filter (fun j => negb (nat_in j (map snd pre))) (seq 0 (length ds)) in
+              let eq_ij := fun i j => node_eqb (nth i cs dummy) (nth j ds dummy) in
+              let exact := flat_map (fun i => match find (fun j => eq_ij i j) tl with Some j => [(i, j)] | None => [] end) fl in
+              let R := filter (fun i => negb (existsb (fun j => eq_ij i j) tl)) fl in              (* to_remove *)
+              let I := filter (fun j => negb (existsb (fun i => eq_ij i j) fl)) tl in              (* to_insert *)
+              let get := fun i j => match mget M i j with Some (Some s) => Some s | _ => None end in
+              if negb (distinct_nodes cs && distinct_nodes ds) then None
+              else
+                match all_some_l (map (fun ij => get (fst ij) (snd ij)) pre),
+                      all_some_l (map (fun i => all_some_l (map (fun j => get i j) I)) R) with
+                | Some kv, Some edges =>
+                    let ans := orc_lookup orc (map (fun i => nth i cs dummy) R) (map (fun j => nth j ds dummy) I) in
+                    let h := Nat.max (nat_max_list (map aheight kv))
+                                     (nat_max_list (map (fun row => nat_max_list (map aheight row)) edges)) in
+                    Some (AMSet (mk_midx exact pre R I)
+                                (amset_init (opsA true h) kv edges (map (fun i => remove_cost (nth i cs dummy) 1) R)
+                                            (map (fun j => insert_cost (nth j ds dummy) 1) I) (fst ans) (snd ans)) false)
+                | _, _ => None
+                end
+          | _ => None
+          end
       end
   end.
 
@@ -721,19 +1219,50 @@ Definition oedit_eqb (x y : option edit) : bool :=
   | _, _ => false
   end.
 
+Definition orc_of (o : option orc_data) : oracle := match o with Some d => d | None => [] end.
+
 Definition modelled_C05 (c : case) : bool :=
-  match initA (c_a c) (c_b c) with Some _ => true | None => false end.
+  match initA (orc_of (c_canon_orc c)) (c_a c) (c_b c) with Some _ => true | None => false end.
 
 (* the model fed the same history under the same quiet setting reproduces every outcome and the final script;
    the canonical drive is the empty history under a quiet printer *)
-Definition corr_run (s0 : ast) (h : history) (r : run) : bool :=
-  let m := run_model (r_quiet r) s0 h in
-  outcomes_eqb (fst m) (r_outs r) && oedit_eqb (snd m) (r_final r).
+(* a run whose oracle table is ambiguous (one (from_nodes, to_nodes) key received two answers within the run) has no
+   correspondence; otherwise the model is started with the answers observed in that run *)
+Definition corr_run (a b : tree) (h : history) (r : run) : bool :=
+  match r_orc r with
+  | None => true
+  | Some orc =>
+      match initA orc a b with
+      | None => true
+      | Some s0 =>
+          let m := run_model (r_quiet r) s0 h in
+          outcomes_eqb (fst m) (r_outs r) && oedit_eqb (snd m) (r_final r)
+      end
+  end.
 
 Definition corr_C05 (c : case) : bool :=
-  match initA (c_a c) (c_b c) with
+  match c_canon_orc c with
   | None => true
-  | Some s0 =>
-      oedit_eqb (snd (run_model true s0 [])) (c_canon c) &&
-      forallb (corr_run s0 (c_hist c)) (c_runs c)
+  | Some orc =>
+      match initA orc (c_a c) (c_b c) with
+      | None => true
+      | Some s0 => oedit_eqb (snd (run_model true s0 [])) (c_canon c)
+      end
+  end && forallb (corr_run (c_a c) (c_b c) (c_hist c)) (c_runs c).
+
+(* the oracle answers are a function of the (from_nodes, to_nodes) key: every run of the case observed, for the keys it
+   shares with the canonical drive, the same assignment (reported separately; not part of corr_C05) *)
+Definition asg_of (o : orc_data) (k : list tree * list tree) : option (list (nat * nat)) :=
+  match find (fun e => trees_beq (fst (fst e)) (fst k) && trees_beq (snd (fst e)) (snd k)) o with
+  | Some e => Some (snd (snd e))
+  | None => None
+  end.
+Definition asg_eqb (x y : list (nat * nat)) : bool :=
+  Nat.eqb (length x) (length y) && forallb (fun p => Nat.eqb (fst (fst p)) (fst (snd p)) && Nat.eqb (snd (fst p)) (snd (snd p))) (combine x y).
+Definition orc_agree (o1 o2 : orc_data) : bool :=
+  forallb (fun e => match asg_of o2 (fst e) with Some a2 => asg_eqb (snd (snd e)) a2 | None => true end) o1.
+Definition oracle_stable_C05 (c : case) : bool :=
+  match c_canon_orc c with
+  | None => true
+  | Some o0 => forallb (fun r => match r_orc r with Some o => orc_agree o0 o | None => true end) (c_runs c)
   end.
